@@ -103,12 +103,12 @@ def _isinstance_classes(test):
     return out
 
 
-def rules_stabilization(run):
+def rules_stabilization(run, ids=('C02.3', 'C02.4', 'C02.5')):
     fi = run.fn('Interpreter._create_stabilization_step')
     F = fi.node
     prog = run.prog
     names_p = q.param_names(F)[1]
-    r = run.rule('C02.3', 'every concrete state class is matched by a branch of _create_stabilization_step or is a stable leaf '
+    r = run.rule(ids[0], 'every concrete state class is matched by a branch of _create_stabilization_step or is a stable leaf '
                           '(BasicState; FinalState away from the root)')
     concrete = [c for c in prog.classes.values() if c.module.name == 'sismic.model.elements' and not c.name.endswith('Mixin')
                 and prog.is_subclass(c.name, 'StateMixin')]
@@ -121,7 +121,7 @@ def rules_stabilization(run):
         run.check(covered, r, fi.short, 'state kind %s handled' % c.name, 'no stabilisation branch (and not a stable leaf): a state of this kind '
                   'would stay in the configuration without default entry', c.node)
 
-    r = run.rule('C02.4', 'default-entry content: compound -> exactly its initial; orthogonal -> all its children; history -> memory or default, '
+    r = run.rule(ids[1], 'default-entry content: compound -> exactly its initial; orthogonal -> all its children; history -> memory or default, '
                           'history state exited; final child of root -> (final, root) exited, nothing entered')
     ms = [c for c in q.calls(F, nested=False) if dotted(c.func) == 'MicroStep']
     seen = set()
@@ -176,7 +176,7 @@ def rules_stabilization(run):
             elif isinstance(x, ast.Break):
                 run.fail(r, fi.short, 'early exit from a stabilisation scan', 'a break stops the scan before every candidate was examined', x)
 
-    r = run.rule('C02.5', 'an active orthogonal state with an inactive child is completed: some branch scans states derived from `names` '
+    r = run.rule(ids[2], 'an active orthogonal state with an inactive child is completed: some branch scans states derived from `names` '
                           '(not only the leaves), tests OrthogonalState and enters the children that are not active')
     found = False
 
@@ -200,6 +200,38 @@ def rules_stabilization(run):
                     continue
                 work += [x.id for x in ast.walk(sx) if isinstance(x, ast.Name)]
         return from_names, via_leaf
+    def full_view(expr, depth=0, rebinding=False):
+        """expr denotes every element of `names`: the parameter itself, an alias, or sorted / set / list .. of such (no intersection, filter or slice)."""
+        expr = strip_cast(expr)
+        if depth > 6:
+            return False
+        if isinstance(expr, ast.Name):
+            if expr.id == names_p and (rebinding or not q.assigned_value(F, names_p)):
+                return True
+            defs = [v for st, v in q.assigned_value(F, expr.id)]
+            # `names = set(names)`: inside the new value the name still denotes the parameter
+            return bool(defs) and all(full_view(v, depth + 1, rebinding=expr.id == names_p and q.reads_name(v, names_p)) for v in defs)
+        if isinstance(expr, ast.Call) and isinstance(expr.func, ast.Name) and expr.func.id in ('sorted', 'set', 'list', 'tuple', 'frozenset', 'reversed') and expr.args:
+            return full_view(expr.args[0], depth + 1, rebinding)
+        if isinstance(expr, ast.IfExp):
+            return full_view(expr.body, depth + 1, rebinding) and full_view(expr.orelse, depth + 1, rebinding)
+        return False
+
+    def scans_everything(subject_expr):
+        """every loop the subject is drawn from ranges over a full view of `names`"""
+        work = [x.id for x in ast.walk(subject_expr) if isinstance(x, ast.Name)]
+        seen_n = set()
+        loops_ = []
+        while work:
+            v = work.pop()
+            if v in seen_n:
+                continue
+            seen_n.add(v)
+            for lp in q.for_targets(F, v):
+                loops_.append(lp)
+            for st, val in q.assigned_value(F, v):
+                work += [x.id for x in ast.walk(val) if isinstance(x, ast.Name)]
+        return bool(loops_) and all(full_view(lp.iter) for lp in loops_)
     for c in [c for c in q.calls(F, nested=False) if dotted(c.func) == 'MicroStep']:
         ent = q.kwargs_of(c).get('entered_states')
         if ent is None:
@@ -215,7 +247,7 @@ def rules_stabilization(run):
                 if not established:
                     continue
                 fn_, vl = derives(subj)
-                if not fn_ or vl:
+                if not fn_ or vl or not scans_everything(subj):
                     continue
                 exprs = [ent]
                 for _ in range(3):
@@ -235,8 +267,8 @@ def rules_stabilization(run):
                         if ca and ca[0] == 'in' and not ca[3] and derives(ast.parse(ca[2], mode='eval').body)[0]:
                             found = True
     run.check(found, r, fi.short, 'orthogonal completion for states entered through one region',
-              'only leaves are examined for default entry: an orthogonal state entered through a transition that targets a state nested '
-              'in one of its regions keeps its other regions inactive (illegal configuration)', F)
+              'only leaves (or a narrowed subset of the active states) are examined for default entry: an orthogonal state entered through a transition '
+              'that targets a state nested in one of its regions keeps its other regions inactive (illegal configuration)', F)
 
 
 def rules_create_steps(run):
@@ -421,3 +453,6 @@ def check(run):
     run.guard(rules_stabilization, run)
     run.guard(rules_create_steps, run)
     run.guard(rules_final, run)
+    # the queries the decision rests on (depth_for / ancestors_for / descendants_for) must not answer from stale derived data after an edit
+    from .c16 import rules_caches
+    run.guard(rules_caches, run, 'C02', '.9')
